@@ -199,6 +199,15 @@ class LazyMixin:
         return n
 
     def materialize(self, lz: LazySeq) -> SV:
+        cached = getattr(lz, "_mat", None)
+        if cached is not None and not self.binders:
+            return cached
+        out = self._materialize(lz)
+        if not self.binders:
+            lz._mat = out
+        return out
+
+    def _materialize(self, lz: LazySeq) -> SV:
         var, dom, cond, elt, pos, facts, size = self.lazy_at(lz)
         if not isinstance(elt, SV):
             if isinstance(elt, PyTuple):
@@ -245,13 +254,16 @@ class LazyMixin:
                                                  z3.And(sub(dom, idx(i)), sub(cond, idx(i)),
                                                         self.list_get(Lsv, i) == sub(elt.term, idx(i)),
                                                         inv(idx(i)) == i)),
-                                 patterns=[idx(i)]))
+                                 patterns=[idx(i), self.list_get(Lsv, i)]))
         self.side_fact(z3.ForAll([i, j], z3.Implies(z3.And(0 <= i, i < j, j < n),
                                                     sub(pos, idx(i)) < sub(pos, idx(j))),
                                  patterns=[z3.MultiPattern(idx(i), idx(j))]))
+        from .spec import auto_patterns
+        extra = auto_patterns([var], z3.And(dom, cond)) or []
+        extra = [p for p in extra if not isinstance(p, z3.PatternRef)][:1]
         self.side_fact(z3.ForAll([var], z3.Implies(z3.And(dom, cond),
                                                    z3.And(0 <= inv(var), inv(var) < n, idx(inv(var)) == var)),
-                                 patterns=[inv(var)]))
+                                 patterns=[inv(var)] + extra))
         self.side_fact(n <= size)
         return Lsv
 
